@@ -109,9 +109,11 @@ def run_parts(ctx, design=True):
         "not modelled; a request 'differs in content' when its sequence of operation types differs (a request with the "
         "same slot, sequence ID and operation types but other arguments may get the cached reply or be rejected, and "
         "must have no side effects); the same lock-owner locking one file through two different open-owners is only "
-        "exercised by the scripted histories; the byte at offset 2^64-1 is not part of the reference's lock table "
-        "(a server may refuse ranges that start there with any error): who was granted it is kept as ghost state and "
-        "two owners must not both be granted it unless both locks are shared")
+        "exercised by the scripted histories; the lockable offsets are 0 .. 2^64-2: with exclusive end "
+        "offsets [x, 2^64-1) and 'x through end of file' are the same table entry, so 'through end of file' means through "
+        "offset 2^64-2; the byte at offset 2^64-1 is addressed only by a request that starts there, which a server may "
+        "refuse with any error; if such requests are granted, who holds that byte is kept as ghost state and two owners "
+        "must not both be granted it unless both locks are shared (and LOCKT must not report 'no conflict' against it)")
     return RULE
 
 
